@@ -1,6 +1,7 @@
 // C19 compile-time constant batches: batch_constant / batch_bool_constant / make_batch_constant,
 // their constexpr operators, and select with a constant mask versus the run-time form.
 // Every pack is a type: the families below are fixed at build time.
+#include "../common/shufgen.hpp"
 #include "../common/vcheck.hpp"
 #include "../common/accept.hpp"
 using namespace vh;
@@ -359,6 +360,16 @@ static void shuffle_const(Rng& rng, const char* gname)
         }
     }
 }
+// packs on / one index away from the in-lane fast-path shapes of the shuffle kernels (common/shufgen.hpp)
+template <class T, unsigned Shape, size_t... P>
+static void shuffle_near(Rng& rng, std::index_sequence<P...>)
+{
+    constexpr size_t N = xs::batch<T, ARCH>::size;
+    static const std::string nm = "near_shape" + std::to_string(Shape);
+    shuffle_const<T, SNear<Shape, 0, N, 0>>(rng, (nm + "_base").c_str());
+    (shuffle_const<T, SNear<Shape, 0, P, 0>>(rng, (nm + "_other_source@" + std::to_string(P)).c_str()), ...);
+    (shuffle_const<T, SNear<Shape, 0, P, 1>>(rng, (nm + "_other_lane@" + std::to_string(P)).c_str()), ...);
+}
 template <class T>
 static void insert_const(Rng& rng)
 {
@@ -399,6 +410,14 @@ static void all_types(Rng& rng)
     swizzle_const_runtime<T, GIdx19<2>>(rng, "random2");
     shuffle_const<T, GShuf19<1>>(rng, "random1");
     shuffle_const<T, GShuf19<2>>(rng, "random2");
+    if constexpr (sizeof(T) >= 4)
+    {
+        using Seq = std::make_index_sequence<xs::batch<T, ARCH>::size>;
+        shuffle_near<T, 0>(rng, Seq {});
+        shuffle_near<T, 1>(rng, Seq {});
+        shuffle_near<T, 2>(rng, Seq {});
+        shuffle_near<T, 3>(rng, Seq {});
+    }
     insert_const<T>(rng);
     using B = xs::batch<T, ARCH>;
     constexpr unsigned N = (unsigned)B::size;
